@@ -1,6 +1,6 @@
 import IdspModel.Lemmas.HbfList
 /-! Single-stage half-band filters: well-formedness, admissible blocks, the abstraction to the input history,
-    history-only specifications `decSpec` / `intSpec`, their block-append laws, and the refinement of the
+    history-only specifications `hbfDecSpec` / `hbfIntSpec`, their block-append laws, and the refinement of the
     literal buffer model `HbfDec.process` / `HbfInt.process`.  No algebraic law about `Ops α` is used. -/
 namespace Idsp
 variable {α : Type}
@@ -38,13 +38,13 @@ theorem zip_take_right {β : Type} (a : List α) (b : List β) (k : Nat) :
       | cons y ys => simp; exact ih xs ys
 
 /-- combine one even-phase sample with one odd-phase FIR output -/
-def decComb (o : Ops α) (p : α × α) : α := o.half (o.add p.1 p.2)
+def hbfDecComb (o : Ops α) (p : α × α) : α := o.half (o.add p.1 p.2)
 
 /-- History-only specification of `HbfDec`: `he` = the last `M-1` even-phase inputs, `ho` = the last `2M-1`
     odd-phase inputs, `x` = new input items (even count). -/
-def decSpec (o : Ops α) (taps he ho x : List α) : List α :=
+def hbfDecSpec (o : Ops α) (taps he ho x : List α) : List α :=
   (((he ++ evens x).take (x.length / 2)).zip
-    ((windows (2 * taps.length) (ho ++ odds x)).map (firTap o taps))).map (decComb o)
+    ((windows (2 * taps.length) (ho ++ odds x)).map (firTap o taps))).map (hbfDecComb o)
 
 /-- history after consuming `x` -/
 def decNext (m : Nat) (he ho x : List α) : List α × List α :=
@@ -56,21 +56,21 @@ theorem decNext_length (m : Nat) (he ho x : List α) (h1 : he.length = m - 1) (h
 
 theorem decSpec_length (o : Ops α) (taps he ho x : List α) (hm : 1 ≤ taps.length)
     (h1 : he.length = taps.length - 1) (h2 : ho.length = 2 * taps.length - 1) :
-    (decSpec o taps he ho x).length = x.length / 2 := by
+    (hbfDecSpec o taps he ho x).length = x.length / 2 := by
   have hw := windows_length (2 * taps.length) (by omega) (ho ++ odds x)
-  simp [decSpec, hw, evens_length, odds_length, h1, h2]; omega
+  simp [hbfDecSpec, hw, evens_length, odds_length, h1, h2]; omega
 
 theorem decSpec_append (o : Ops α) (taps he ho b1 b2 : List α) (hm : 1 ≤ taps.length)
     (h1 : he.length = taps.length - 1) (h2 : ho.length = 2 * taps.length - 1) (hb : b1.length % 2 = 0) :
-    decSpec o taps he ho (b1 ++ b2) =
-      decSpec o taps he ho b1 ++
-      decSpec o taps (decNext taps.length he ho b1).1 (decNext taps.length he ho b1).2 b2 := by
+    hbfDecSpec o taps he ho (b1 ++ b2) =
+      hbfDecSpec o taps he ho b1 ++
+      hbfDecSpec o taps (decNext taps.length he ho b1).1 (decNext taps.length he ho b1).2 b2 := by
   have hk : (b1 ++ b2).length / 2 = b1.length / 2 + b2.length / 2 := by simp; omega
   have he1 := evens_length b1
   have ho1 := odds_length b1
   have hn : 0 < 2 * taps.length := by omega
   have hw1 := windows_length (2 * taps.length) hn (ho ++ odds b1)
-  simp only [decSpec, decNext, evens_append _ _ hb, odds_append _ _ hb, hk, ← List.map_append]
+  simp only [hbfDecSpec, decNext, evens_append _ _ hb, odds_append _ _ hb, hk, ← List.map_append]
   congr 1
   rw [← List.zip_append (by simp [hw1, he1, ho1, h1, h2]; omega), ← List.map_append]
   congr 1
@@ -95,18 +95,18 @@ theorem decSpec_append (o : Ops α) (taps he ho b1 b2 : List α) (hm : 1 ≤ tap
       simp [ho1, h2]
 
 
-theorem decComb_eq (o : Ops α) : (fun (p : α × α) => match p with | (e, od) => o.half (o.add e od)) = decComb o := by
+theorem decComb_eq (o : Ops α) : (fun (p : α × α) => match p with | (e, od) => o.half (o.add e od)) = hbfDecComb o := by
   funext p; cases p; rfl
 
 theorem HbfDec.process_out (o : Ops α) (d : HbfDec α) (wf : d.WF) (x : List α) (adm : d.Adm x) :
-    (d.process o x).2 = decSpec o d.odd.taps d.abs.1 d.abs.2 x := by
+    (d.process o x).2 = hbfDecSpec o d.odd.taps d.abs.1 d.abs.2 x := by
   obtain ⟨hm, hle, hge⟩ := wf
   obtain ⟨hx2, hxm⟩ := adm
   simp only [HbfDec.blockMax] at hxm
   have hel := evens_length x
   have hol := odds_length x
   have hn : 0 < 2 * d.odd.taps.length := by omega
-  simp only [HbfDec.process, SymFir.load, SymFir.get, splice, HbfDec.abs, decSpec, decComb_eq]
+  simp only [HbfDec.process, SymFir.load, SymFir.get, splice, HbfDec.abs, hbfDecSpec, decComb_eq]
   congr 1
   rw [zip_take_right]
   congr 1
@@ -210,7 +210,7 @@ theorem HbfInt.abs_length (d : HbfInt α) (wf : d.WF) : d.abs.length = 2 * d.fir
   simp [HbfInt.abs]; omega
 
 /-- History-only specification of `HbfInt`: `h` = the last `2M-1` inputs, `x` = new inputs. -/
-def intSpec (o : Ops α) (taps h x : List α) : List α :=
+def hbfIntSpec (o : Ops α) (taps h x : List α) : List α :=
   interleave ((windows (2 * taps.length) (h ++ x)).map (firTap o taps))
     (((h ++ x).drop taps.length).take x.length)
 
@@ -221,17 +221,17 @@ theorem intNext_length (m : Nat) (h x : List α) (h1 : h.length = 2 * m - 1) :
   simp [intNext, lastN_length, h1]
 
 theorem intSpec_length (o : Ops α) (taps h x : List α) (hm : 1 ≤ taps.length)
-    (h1 : h.length = 2 * taps.length - 1) : (intSpec o taps h x).length = 2 * x.length := by
+    (h1 : h.length = 2 * taps.length - 1) : (hbfIntSpec o taps h x).length = 2 * x.length := by
   have hw := windows_length (2 * taps.length) (by omega) (h ++ x)
-  simp [intSpec, interleave_length, hw, h1]; omega
+  simp [hbfIntSpec, interleave_length, hw, h1]; omega
 
 theorem intSpec_append (o : Ops α) (taps h b1 b2 : List α) (hm : 1 ≤ taps.length)
     (h1 : h.length = 2 * taps.length - 1) :
-    intSpec o taps h (b1 ++ b2) =
-      intSpec o taps h b1 ++ intSpec o taps (intNext taps.length h b1) b2 := by
+    hbfIntSpec o taps h (b1 ++ b2) =
+      hbfIntSpec o taps h b1 ++ hbfIntSpec o taps (intNext taps.length h b1) b2 := by
   have hn : 0 < 2 * taps.length := by omega
   have hw1 := windows_length (2 * taps.length) hn (h ++ b1)
-  simp only [intSpec, intNext]
+  simp only [hbfIntSpec, intNext]
   rw [← interleave_append _ _ _ _ (by simp [hw1, h1]; omega), ← List.map_append]
   congr 1
   · congr 1
@@ -255,11 +255,11 @@ theorem intSpec_append (o : Ops α) (taps h b1 b2 : List α) (hm : 1 ≤ taps.le
 
 
 theorem HbfInt.process_out (o : Ops α) (d : HbfInt α) (wf : d.WF) (x : List α) (adm : d.Adm x) :
-    (d.process o x).2 = intSpec o d.fir.taps d.abs x := by
+    (d.process o x).2 = hbfIntSpec o d.fir.taps d.abs x := by
   obtain ⟨hm, hge⟩ := wf
   have hadm : 2 * x.length ≤ 2 * (d.fir.x.length - (2 * d.fir.taps.length - 1)) := adm
   have hn : 0 < 2 * d.fir.taps.length := by omega
-  simp only [HbfInt.process, SymFir.load, SymFir.get, splice, HbfInt.abs, intSpec]
+  simp only [HbfInt.process, SymFir.load, SymFir.get, splice, HbfInt.abs, hbfIntSpec]
   rw [interleave_take_left]
   congr 1
   · rw [← List.map_take]
